@@ -191,6 +191,9 @@ def occupancy(transfer, size, thr, chunk, io, l1, l3, l4, l5, l6, c0, c1, c2):
         return v if v == '~' else 'c10: ' + v[5:]
     if N.finish(c)[0] != 'ok':
         return 'c10: transfer failed'
+    r = N.effect_reason(c, transfer, size)
+    if r:
+        return 'c10: ' + r
     return analyse(c)
 
 
